@@ -26,7 +26,7 @@ func (g *G) Reseed(seed int64) { g.R = rand.New(rand.NewSource(seed)) }
 var PromiseIds = []string{"p0", "p1", "p2", "P1", "a:b", "b:c", "x/y", "p0.1", "pé", "%", "p_"}
 var Patterns = []string{"*", "p*", "*1", "p_", "P*", "*:*", "a:b", "p0", "*é", "%", "p0.1", "*.*", "\\*", "x/*"}
 var ProcIds = []string{"w0", "w1", "w2", "Worker-A"} // process ids are case-sensitive
-var ExecIds = []string{"e0", "e1", "e2"}
+var ExecIds = []string{"e0", "e1", "e2", "e0 "} // ids are compared as given: "e0 " is another execution than "e0"
 var ResIds = []string{"r0", "r1", "R0"}
 var SchedIds = []string{"s0", "s1", "S0", "s:x"}
 var TagKeys = []string{"k", "a.b", "resonate:timeout", "resonate:invoke", "x y"}
